@@ -122,7 +122,9 @@ func (self *StreamDecoder) Decode(val interface{}) (err error) {
 func (self *StreamDecoder) consume() {
 	_, empty := self.scan()
 	if empty {
-		// no remain valid bytes, thus we just recycle buffer
+		// no remain valid bytes, thus we just recycle buffer;
+		// the white space that goes with it has been consumed
+		self.scanp = len(self.buf)
 		mem := self.buf
 		self.buf = nil
 		freeBytes(mem)
